@@ -34,7 +34,7 @@ def full(Y):
     if Z.shape[-1] == 1:
         Z = Z[..., 0]
 
-    return Z
+    return Z if len(Y) > 1 else Z.copy()
 
 
 def full_matrix(Y, order='F'):
